@@ -70,7 +70,9 @@ CLAIMED = {
              'value/address, op words). Every path must end in success or a FlipJumpException that is not the generic funnel, and '
              'a failed assembly must leave no output file.',
         note='Text-level error classes (lexing/syntax errors, byte mutations) and never-hangs are outside: the regex lexer and the '
-             'LALR tables cannot be driven by symbolic strings. Operand magnitudes are bounded per operator (see evidence).',
+             'LALR tables cannot be driven by symbolic strings. Operand magnitudes are bounded per operator (see evidence). Macro '
+             'recursion depth is a nesting structure, not a solver quantity: four recursion shapes (call, through rep, call/rep '
+             'alternation, a valid 600-deep rep recursion) are validated concretely at the default depth and reported as validation runs.',
         technique=_T_PYSYM, ref='DESIGN.md 2/C14'),
     'C02': dict(
         text='Bounded symbolic verification: the whole real pipeline (parser, preprocessor, labels_resolve, Writer, Reader on the '
@@ -167,8 +169,11 @@ CLAIMED = {
         text='Bounded symbolic verification: an IO device that fails at its k-th call (k symbolic; library IO error, end-of-input type, foreign '
              'exception, KeyboardInterrupt) under the real fjm_run.run() of both Python loops, and the native loops with PyErr_CheckSignals / '
              'device callbacks failing at arbitrary points: outcome class, op count, outputs so far, last-ops list and memory at the stop equal '
-             'pyspec stopped by the same fault.',
-        note='Native: signals are polled every 2^k ops (havocked counter).', technique=_T_PYSYM + '; ' + _T_LLSX, ref='DESIGN.md 2/C18'),
+             'pyspec stopped by the same fault. Between the two, the real fjm_run.run() -> _run_native with the C core stubbed by its contract '
+             '(leaves a symbolic op count and last-ops ring, raises KeyboardInterrupt / a library IO error / a foreign exception): outcome '
+             'class, op count and last-ops list in the statistics equal the ops completed.',
+        note='Native: signals are polled every 2^k ops (havocked counter). The core stub\'s contract is validated on every run against a '
+             'fresh build of the real core (native vs python fast loop on one faulting program; not solver-decided).', technique=_T_PYSYM + '; ' + _T_LLSX, ref='DESIGN.md 2/C18'),
     'C19': dict(
         text='Bounded symbolic verification: (a) the real ReaderDeviceMemory over the symbolic machine state of C01: device read / in-segment '
              'device write, one op of the real Python loop, device read - everything the device and the op see equals pyspec over the reference '
